@@ -1044,7 +1044,7 @@ func (c *Ctx) checkIteratorYieldsKey() {
 // node with no error for everything else.
 func (c *Ctx) checkFoundIffNonNil() {
 	r := c.R
-	r.Rule("M11", "found iff non-nil: in each LookupByString of a directory-like node, the nil edge of the test on the search result leads only to returns with a certainly non-nil error, and the non-nil edge only to returns of that result with a nil error")
+	r.Rule("M11", "found iff non-nil: in each LookupByString of a directory-like node, the nil edge of the test on the search result leads only to returns with a certainly non-nil error, and the non-nil edge only to returns of that result with a nil error; a freshly made ErrNoSuchField is returned only on the nil edge of a test of a search result (not-found only after the search)")
 	n := 0
 	for _, fn := range c.G.Funcs() {
 		rel, ok := c.P.PkgOf(fn)
@@ -1157,6 +1157,42 @@ func (c *Ctx) checkFoundIffNonNil() {
 				return !trueMeansNil, true
 			})
 			r.Check(guarded, "M11", fmt.Sprintf("%s/result-returned-when-found#%d", core.FuncName(fn), ord), c.P.Pos(ret.Pos()), "the search result is returned only where it was tested non-nil", "the search result is returned with a nil error without having been tested: a name that is not there answers (nil, nil) instead of not-found")
+		}
+		// not-found is answered only after the search: every return of a freshly made ErrNoSuchField lies on the nil edge of a
+		// test of a repository search result (a key refused before the search is a key the iterator may still yield)
+		for _, ret := range core.Returns(fn) {
+			rr := core.ResolvedResults(ret)
+			mi, ok := rr[errIdx].(*ssa.MakeInterface)
+			if !ok {
+				continue
+			}
+			nt, ok := mi.X.Type().(*types.Named)
+			if !ok || nt.Obj().Name() != "ErrNoSuchField" {
+				continue
+			}
+			ord++
+			n++
+			searched := core.GuardedBy(ret.Block(), func(cond ssa.Value) (bool, bool) {
+				x, trueMeansNil, ok := core.NilCmp(cond)
+				if !ok || core.IsErrorType(x.Type()) {
+					return false, false
+				}
+				var src *ssa.Call
+				switch v := x.(type) {
+				case *ssa.Call:
+					src = v
+				case *ssa.Extract:
+					src, _ = v.Tuple.(*ssa.Call)
+				}
+				if src == nil || src.Call.StaticCallee() == nil {
+					return false, false
+				}
+				if _, isRepo := c.P.PkgOf(src.Call.StaticCallee()); !isRepo {
+					return false, false
+				}
+				return trueMeansNil, true
+			})
+			r.Check(searched, "M11", fmt.Sprintf("%s/not-found-only-after-search#%d", core.FuncName(fn), ord), c.P.Pos(ret.Pos()), "not-found is answered only where the search came back empty", "not-found is answered without searching the links: a key the iterator can yield (any link name, the empty one included) is refused by this entry point while the native Lookup still finds it")
 		}
 	}
 	r.Floor("M11", n, 2)
